@@ -48,7 +48,7 @@ for l in sys.stdin:
         if fn == "relock" and "not-already-held#2" in ob: want = "FAIL"
         if fn == "relockThroughHelper" and "not-already-held#2" in ob: want = "FAIL"
         if fn == "relockThroughContract" and "call-of-readLockedC-which-locks" in ob: want = "FAIL"
-        if fn == "peek" and "read-of-table" in ob: want = "FAIL"
+        if fn == "peekUnlocked" and "read-of-table" in ob: want = "FAIL"
     elif ob.startswith("race["):
         want = "FAIL" if fn == "plainRead" else "ok"
     elif ob.startswith("onwrite["):
